@@ -341,11 +341,14 @@ package inputrc
 // ---------------------------------------------------------------------------------------
 // Config accessors
 
+// cfgisstr(cfg, name): the variable holds a string (only then does GetString return anything but "")
+//@ pred cfgisstr(cfg *Config, name string) = cfg.Vars != nil && has(cfg.Vars, name) && typeis(cfg.Vars[name], "string")
 //@ func (*Config).GetString
-//@   props C12 C01 C17
+//@   props C12 C01 C17 C08
 //@   terminates
 //@   requires cfg != nil
 //@   pure
+//@   ensures [empty-unless-a-string] !cfgisstr(cfg, name) ==> len(result) == 0
 
 // cfgbool(cfg, name): the value GetBool reads (false unless the variable holds the bool true)
 //@ spec cfgbool(cfg *Config, name string) bool = cfg.Vars != nil && has(cfg.Vars, name) && typeis(cfg.Vars[name], "bool") && asbool(cfg.Vars[name])
@@ -356,11 +359,14 @@ package inputrc
 //@   pure
 //@   ensures result == cfgbool(cfg, name)
 
+// cfgint(cfg, name): the value GetInt reads (0 unless the variable holds an int)
+//@ spec cfgint(cfg *Config, name string) int = ite(cfg.Vars != nil && has(cfg.Vars, name) && typeis(cfg.Vars[name], "int"), asint(cfg.Vars[name]), 0)
 //@ func (*Config).GetInt
-//@   props C12 C01
+//@   props C12 C01 C08
 //@   terminates
 //@   requires cfg != nil
 //@   pure
+//@   ensures result == cfgint(cfg, name)
 
 // ---------------------------------------------------------------------------------------
 // C19: escape / unescape, one token at a time, over rune sequences.
